@@ -198,6 +198,9 @@ func (cl *Client) WriteLoop() {
 			if err := cl.WritePacket(*pk); err != nil {
 				// TODO : Figure out what to do with error
 				cl.ops.log.Debug("failed publishing packet", "error", err, "client", cl.ID, "packet", pk)
+				if errors.Is(err, packets.ErrPacketTooLarge) {
+					cl.ops.hooks.OnPublishDropped(cl, *pk) // [MQTT-3.1.2-25] the packet is discarded
+				}
 			}
 			atomic.AddInt32(&cl.State.outboundQty, -1)
 		case <-cl.State.open.Done():
